@@ -14,7 +14,7 @@ from props import c08
 
 ID = "C03"
 LEVEL = "exploration"
-BUDGET = {"quick": (8, 16), "thorough": (16, 160)}
+BUDGET = {"quick": (8, 16), "thorough": (16, 300)}
 MS_ = [1, 2, 4, 8]
 FLOOR = 2e-11
 RULE = ("Generated smooth ODEs (1-2 states, bounded nonlinear right-hand sides with explicit t, a global parameter and a piecewise-constant input entered as per-interval parameter so that the NLP is a "
